@@ -169,7 +169,21 @@ def run(item):
             fb = [v for col in getattr(tb, nm) for v in col]
             if len(fa) != len(fb) or not all(close(a_, c_) for a_, c_ in zip(fa, fb)):
                 V('accessor-order', nm, 'sampling %s through the loaded OCP\'s accessors gives different quantities (order of symbols changed?)' % nm)
-    r = result(O2, ch, {'violations': viol, 'shape': '%s|%s|%s' % (cfg.tag(), when, spec.note),
+    twins_ok = twins_bad = 0
+    if L is not None and item.get('twin', True) and len(spec.cons) > 1:
+        sW = copy.deepcopy(spec)
+        sW.cons = sW.cons[:-1]
+        try:
+            W = Inst(sW, cfg, seed=item.get('seed', 0), like=O2, bind=bind_positional())
+            ch2 = Checker(O2, timeout_ms=5000)
+            dW, _ = compare_nlps(ch2, L, W, 'loaded', 'one-constraint-less')
+            if dW:
+                twins_ok += 1
+            else:
+                twins_bad += 1
+        except Exception:
+            pass
+    r = result(O2, ch, {'violations': viol, 'twins_ok': twins_ok, 'twins_bad': twins_bad, 'shape': '%s|%s|%s' % (cfg.tag(), when, spec.note),
                         'sample': {'cfg': cfg.tag(), 'save': when, 'rows': O2.nlp.ng, 'pairs': npairs, 'features': spec.note}})
     if viol:
         r['status'] = 'violation'
